@@ -84,17 +84,32 @@ func (c *Ctx) callSiteAsserts(fr *Frame, st *State, reach T, key string, pos tok
 		return
 	}
 	for _, cl := range fr.ct.Sites {
-		if !cl.inSlice(c.prop) || (cl.File != "*" && cl.File != key) {
+		if !cl.inSlice(c.prop) {
 			continue
 		}
-		if cl.File == "*" && (c.P.CS.Funcs[key] == nil || c.P.CS.Funcs[key].Assumed) {
+		if strings.HasSuffix(cl.File, "*") {
+			if !strings.HasPrefix(key, strings.TrimSuffix(cl.File, "*")) {
+				continue
+			}
+		} else if cl.File != key {
 			continue
 		}
 		env := c.specEnv(fr, st)
 		env.params = env.vars
 		env.vars = map[string]Val{}
 		if fr.curBlock != nil {
-			if h := fr.innerLoop[fr.curBlock]; h != nil {
+			h := fr.innerLoop[fr.curBlock]
+			if h == nil {
+				// not in a natural loop body (e.g. a block that returns): the
+				// nearest dominating loop header
+				for d := fr.curBlock.Idom(); d != nil; d = d.Idom() {
+					if _, ok := fr.loopOrd[d]; ok {
+						h = d
+						break
+					}
+				}
+			}
+			if h != nil {
 				if li := c.loopInfos[loopKey(c, fr, h)]; li != nil {
 					env.iterHead = li.head
 					env.loopPre = li.pre
@@ -103,7 +118,7 @@ func (c *Ctx) callSiteAsserts(fr *Frame, st *State, reach T, key string, pos tok
 		}
 		env.at = fmt.Sprintf("callsite %s in %s", key, funcKey(fr.fn))
 		g := env.evalBool(cl.Expr)
-		c.oblige("callsite", fmt.Sprintf("site:%s:%s", c.siteName("site:"+key+":"+cl.name()), cl.name()), cl.Tags, reach, g, pos, cl.Text)
+		c.oblige("callsite", c.siteName("site:"+key+":"+cl.name()), cl.Tags, reach, g, pos, cl.Text)
 	}
 }
 
